@@ -959,9 +959,9 @@ class SyncObj(object):
             # Install snapshot
             elif serialized is not None:
                 if self.__serializer.setTransmissionData(serialized):
-                    self.__loadDumpFile(clearJournal=True)
-                    self.__sendNextNodeIdx(node, success=True)
-                    lastNewIdx = self.__getCurrentLogIndex()
+                    lastNewIdx = self.__loadDumpFile(clearJournal=True)
+                    if lastNewIdx is not None:
+                        self.__sendNextNodeIdx(node, nextNodeIdx=lastNewIdx + 1, success=True)
 
             # lastNewIdx is the last entry known to match the leader's log; a message
             # that verified nothing (partial snapshot chunk) must not move the commit index
@@ -1399,6 +1399,14 @@ class SyncObj(object):
     def __loadDumpFile(self, clearJournal):
         try:
             data = self.__serializer.deserialize()
+            if clearJournal:
+                # A snapshot received from the leader is a committed prefix. If this node already
+                # applied it or already holds its last entry, installing it would drop entries
+                # acknowledged earlier and move the state machine backwards: keep log and state.
+                lastIdx, lastTerm = data[1][1], data[1][2]
+                ownEntry = self.__getEntries(lastIdx, 1)
+                if lastIdx <= self.__raftLastApplied or (ownEntry and ownEntry[0][2] == lastTerm):
+                    return lastIdx
             if data[0] is not None:
                 if self.__consumers:
                     selfData = data[0][0]
@@ -1426,8 +1434,10 @@ class SyncObj(object):
             if self.__conf.dynamicMembershipChange:
                 self.__updateClusterConfiguration([node for node in data[3] if node != self.__selfNode])
             self.__onSetCodeVersion(0)
+            return data[1][1]
         except:
             logger.exception('failed to load full dump')
+            return None
 
     def __updateClusterConfiguration(self, newNodes):
         # newNodes: list of Node or node ID
